@@ -550,11 +550,12 @@ fn directed(base: &Path, lines: &HashMap<u32, String>) -> Vec<Value> {
     //      the updater resumes.  Live collection and recovered collection must agree (the WAL names the
     //      document by its external id; a slot number resolved before the compaction names another document).
     {
-        let e = env(base, "d10", cfg(0, 1 << 20, 3), lines);
-        do_call(&e.b, &Call::Ins(1, 1, 1));
-        do_call(&e.b, &Call::Ins(2, 2, 2));
-        do_call(&e.b, &Call::Del(1)); // tombstone in slot 0, document 2 in slot 1
-        do_call(&e.b, &Call::Ins(3, 3, 3)); // 3 physical slots = capacity, one of them a tombstone
+        // env() itself leaves one tombstone (its probe document) in slot 0
+        let e = env(base, "d10", cfg(0, 1 << 20, 4), lines);
+        do_call(&e.b, &Call::Ins(1, 1, 1)); // slot 1
+        do_call(&e.b, &Call::Ins(2, 2, 2)); // slot 2
+        do_call(&e.b, &Call::Del(1)); // tombstones in slots 0 and 1, document 2 in slot 2
+        do_call(&e.b, &Call::Ins(3, 3, 3)); // slot 3: 4 physical slots = capacity, two of them tombstones
         gate(&e, 1, "snapshot_lock", Mode::Read, Phase::Req, 1, Some(61), Some(62));
         let done = Arc::new(AtomicUsize::new(0));
         let h1 = spawn(&e, 1, vec![Call::Upd(2, 9)], done.clone());
